@@ -209,7 +209,7 @@ __CPROVER_loop_invariant((AM->gpos >= 0 && index1 == (unsigned long)AM->gouter &
 __CPROVER_decreases(Ainner.m_end - Ainner.m_id)
 //@end
 
-//@harness h_SP_compute enforce=SusceptibilityPart_compute props=C14,C17 min_obl=5000 timeout=900 reach=3
+//@harness h_SP_compute enforce=SusceptibilityPart_compute props=C14,C17 min_obl=4976 timeout=900 reach=3
 void h_SP_compute(void)
 {
   struct SusceptibilityPart *p;
@@ -325,7 +325,7 @@ __CPROVER_ensures(self->HpartInner.Eigenvalues.data == HpartInner->Eigenvalues.d
 __CPROVER_ensures(self->DMpartInner.weights.data == DMpartInner->weights.data && self->DMpartOuter.weights.data == DMpartOuter->weights.data)
 //@end
 
-//@harness h_SP_ctor enforce=SusceptibilityPart_init6 props=C14 min_obl=320 timeout=120 reach=1
+//@harness h_SP_ctor enforce=SusceptibilityPart_init6 props=C14 min_obl=319 timeout=120 reach=1
 void h_SP_ctor(void)
 {
   struct SusceptibilityPart *p; struct FieldOperatorPart *a, *b; struct HamiltonianPart *hi, *ho; struct DensityMatrixPart *di, *dO;
@@ -333,22 +333,22 @@ void h_SP_ctor(void)
   REACH("exit");
 }
 
-//@harness h_SPTerm_z enforce=SPTerm_call_z props=C14 min_obl=55 timeout=120 reach=1
+//@harness h_SPTerm_z enforce=SPTerm_call_z props=C14 min_obl=57 timeout=120 reach=1
 void h_SPTerm_z(void) { SPTerm *t; cplx z; SPTerm_call_z(t, z); REACH("exit"); }
 
-//@harness h_SPTerm_tau_pin enforce=SPTerm_call_tau props=C14 min_obl=73 timeout=120 reach=1
+//@harness h_SPTerm_tau_pin enforce=SPTerm_call_tau props=C14 min_obl=74 timeout=120 reach=1
 void h_SPTerm_tau_pin(void) { SPTerm *t; double tau, beta; SPTerm_call_tau(t, tau, beta); REACH("exit"); }
 
-//@harness h_SPTerm_tau_range enforce=SPTerm_call_tau props=C14 defs=-DVERIF_FP_IEEE min_obl=68 timeout=120 reach=2
+//@harness h_SPTerm_tau_range enforce=SPTerm_call_tau props=C14 defs=-DVERIF_FP_IEEE min_obl=69 timeout=120 reach=2
 void h_SPTerm_tau_range(void) { SPTerm *t; double tau, beta; SPTerm_call_tau(t, tau, beta); REACH("exit"); }
 
-//@harness h_SP_call_z enforce=SusceptibilityPart_call_z props=C14 min_obl=60 timeout=120 reach=1
+//@harness h_SP_call_z enforce=SusceptibilityPart_call_z props=C14 min_obl=63 timeout=120 reach=1
 void h_SP_call_z(void) { struct SusceptibilityPart *p; cplx z; SusceptibilityPart_call_z(p, z); REACH("exit"); }
 
-//@harness h_SP_call_n enforce=SusceptibilityPart_call_n props=C14 min_obl=95 timeout=120 reach=1
+//@harness h_SP_call_n enforce=SusceptibilityPart_call_n props=C14 min_obl=97 timeout=120 reach=1
 void h_SP_call_n(void) { struct SusceptibilityPart *p; long n; SusceptibilityPart_call_n(p, n); REACH("exit"); }
 
-//@harness h_SP_of_tau enforce=SusceptibilityPart_of_tau props=C14 min_obl=60 timeout=120 reach=1
+//@harness h_SP_of_tau enforce=SusceptibilityPart_of_tau props=C14 min_obl=63 timeout=120 reach=1
 void h_SP_of_tau(void) { struct SusceptibilityPart *p; double tau; SusceptibilityPart_of_tau(p, tau); REACH("exit"); }
 
 /* =====================================================================================================================
